@@ -86,8 +86,13 @@ pub const D_CLOSED: u8 = 2;
 
 /// Reader-side decision against a concurrent writer.
 /// `pre_step`: how far the writer's script has already advanced before the call (0,1,2).
-pub fn reader_decision(cap: usize, initial: usize, need: usize, k: usize, decision: u8, pre_step: u8) {
+pub fn reader_decision(cap: usize, offset: usize, initial: usize, need: usize, k: usize, decision: u8, pre_step: u8) {
     let (tx, rx) = new_stream_sized::<u8>(cap);
+    // move the ring positions to `offset` first so that buffered data can straddle the wrap point
+    if offset > 0 {
+        prefill(&tx, offset);
+        acc::consume(rx.verif_ring(), offset);
+    }
     prefill(&tx, initial);
     let mut p = PeerW {
         tx: Some(tx),
@@ -160,16 +165,10 @@ fn env_r(_id: u32) {
     if p.step == 0 && any::<bool>() {
         let rx = p.rx.as_ref().unwrap();
         if !acc::is_locked(rx.verif_ring()) {
-            match rx.read_buf() {
-                Ok((r, t)) => {
-                    std::mem::forget(t);
-                    if r.len() >= p.m {
-                        r.consume(p.m);
-                    } else {
-                        drop(r);
-                    }
-                }
-                Err(e) => std::mem::forget(e),
+            // the reader's consume (the real critical section); its window acquisition is
+            // irrelevant to the writer's decision
+            if acc::state(rx.verif_ring()).2 >= p.m {
+                acc::consume(rx.verif_ring(), p.m);
             }
             p.step = 1;
         }
@@ -182,8 +181,12 @@ fn env_r(_id: u32) {
 }
 
 /// Writer-side decision (wait_for_write / closed) against a concurrent reader.
-pub fn writer_decision(cap: usize, initial: usize, need: usize, m: usize, decision: u8, pre_step: u8) {
+pub fn writer_decision(cap: usize, offset: usize, initial: usize, need: usize, m: usize, decision: u8, pre_step: u8) {
     let (tx, rx) = new_stream_sized::<u8>(cap);
+    if offset > 0 {
+        prefill(&tx, offset);
+        acc::consume(rx.verif_ring(), offset);
+    }
     prefill(&tx, initial);
     let mut p = PeerR {
         rx: Some(rx),
@@ -193,14 +196,7 @@ pub fn writer_decision(cap: usize, initial: usize, need: usize, m: usize, decisi
     };
     set_peer(&mut p as *mut PeerR);
     if pre_step >= 1 {
-        let rx = p.rx.as_ref().unwrap();
-        match rx.read_buf() {
-            Ok((r, t)) => {
-                std::mem::forget(t);
-                r.consume(m);
-            }
-            Err(e) => std::mem::forget(e),
-        }
+        acc::consume(p.rx.as_ref().unwrap().verif_ring(), m);
         p.step = 1;
     }
     if pre_step >= 2 {
